@@ -48,6 +48,7 @@ class SimThread:
         self.in_library = 0  # > 0 while the thread is inside a library call made by the harness
         self.native_id = 0
         self.local = 0  # pre-emption points this thread has passed itself
+        self.last_code: Any = None  # code object of the thread's previous pre-emption point
 
 
 class Sim:
@@ -92,6 +93,7 @@ class Sim:
         self._pct_points: List[int] = []
         self.in_code: Dict[str, str] = {}  # thread -> co_name of innermost library frame at last park
         self._have_blocked = False
+        self._edge = False
         self.real_blocks = 0
 
     # ------------------------------------------------------------------
@@ -137,6 +139,10 @@ class Sim:
         if self.steps > self.step_cap:
             self.aborted = StepBudgetExceeded(self.steps)
             raise self.aborted
+        # an "edge": the thread has just entered or left a function (check-then-act sequences
+        # that span a call have their windows there)
+        self._edge = code is not cur.last_code
+        cur.last_code = code
         nxt = self._decide(cur)
         if nxt is not None and nxt is not cur:
             site = f"{code.co_filename.rsplit('/', 1)[-1]}:{code.co_name}"
@@ -194,6 +200,13 @@ class Sim:
                 cur.priority = min(t.priority for t in self.threads.values()) - 1.0
             best = max(self.runnable(), key=lambda t: t.priority, default=None)
             return best if best is not cur else None
+        if kind == "edges":
+            # switch mostly where control passes from one function to another
+            if self.rng.random() < (st["p_edge"] if self._edge else st["p"]):
+                others = self.runnable(exclude=cur)
+                if others:
+                    return others[self.rng.randrange(len(others))]
+            return None
         if kind == "stall":
             # one thread is held; the others are switched among with a small p
             held = st["held"]
@@ -374,8 +387,10 @@ class in_library:
 
 def draw_strategy(rng: random.Random, names: List[str]) -> Dict[str, Any]:
     r = rng.random()
-    if r < 0.5:
+    if r < 0.38:
         return {"kind": "walk", "p": rng.choice((0.5, 0.125, 0.125, 0.02, 0.02, 0.002))}
+    if r < 0.5:
+        return {"kind": "edges", "p_edge": rng.choice((0.5, 0.2, 0.05)), "p": rng.choice((0.0, 0.005, 0.02))}
     if r < 0.75:
         return {"kind": "pct", "d": rng.choice((1, 2, 3)), "horizon": rng.choice((500, 2000, 6000))}
     if r < 0.9:
